@@ -214,11 +214,16 @@ Fixpoint ty_eqb (a b : ty) : bool :=
   | TStruct i, TStruct j => (i =? j)%nat
   | _, _ => false
   end.
+(* [a] is the model's field (from the IDL text), [b] the one reflected from the generated code. The reflection reads
+   a member's default off what ResetDefault assigns; since the repaired ResetDefault assigns EVERY member (declared
+   default, else the zero value) a declared default equal to the zero value of the type cannot be told from no
+   default there - and makes no difference to anything the generated code does - so it is reflected as None *)
 Definition field_eqb (a b : field) : bool :=
   (ftag a =? ftag b) && Bool.eqb (freq a) (freq b) && ty_eqb (fty a) (fty b) &&
   match fdef a, fdef b with
   | None, None => true
   | Some x, Some y => val_eqb x y
+  | Some x, None => val_eqb x (zero_of 1 [] (fty a))
   | _, _ => false
   end.
 Definition env_eqb (a b : env) : bool := list_eqb (list_eqb field_eqb) a b.
